@@ -38,6 +38,7 @@ type propCfg struct {
 var propCfgs = map[string]propCfg{
 	"C08": {Safety: true},
 	"C15": {Safety: true},
+	"C13": {Safety: true},
 }
 
 func main() {
